@@ -105,6 +105,23 @@ pub fn gen_desc(stream: &[u16], arity: Option<usize>) -> Ty {
     gen_ty(&mut src, &mut a, 0, arity)
 }
 
+/// a derived struct with more fields than the largest tuple the library implements (27..52 leaves)
+pub fn gen_big_derive(stream: &[u16], named: bool) -> Ty {
+    let mut src = Src::new(stream);
+    let mut a = Alloc {
+        next_res: 0,
+        next_handler: 0,
+        start: src.pick(NR),
+    };
+    let n = 27 + src.pick(26);
+    let members: Vec<Ty> = (0..n).map(|_| gen_leaf(&mut src, &mut a)).collect();
+    if named {
+        Ty::DeriveNamed(0, members)
+    } else {
+        Ty::DeriveTuple(0, members)
+    }
+}
+
 // ---- the harness's own composition rules ---------------------------------------------------------
 
 pub fn reads(t: &Ty) -> Vec<usize> {
@@ -503,6 +520,11 @@ pub fn run_c06(quick: bool, seed: u64) -> SubResult {
         for arity in 1..=26usize {
             descs.push((gen_desc(&streams[arity - 1], Some(arity)), streams[arity - 1].clone()));
         }
+        // derived structs are not limited to 26 fields
+        for j in 0..4usize {
+            let s = &streams[26 + j];
+            descs.push((gen_big_derive(s, j % 2 == 0), s.clone()));
+        }
         for (k, s) in streams[26..].iter().enumerate() {
             let d = gen_desc(s, None);
             // every 12th descriptor is the shared generic derive struct around the generated type
@@ -520,6 +542,9 @@ pub fn run_c06(quick: bool, seed: u64) -> SubResult {
             }
             stats.class(&format!("depth_{}", depth(t)));
             match t {
+                Ty::DeriveNamed(_, m) | Ty::DeriveTuple(_, m) if m.len() > 26 => {
+                    stats.class("top_level_derive_with_more_than_26_fields")
+                }
                 Ty::DeriveNamed(..) | Ty::DeriveTuple(..) => stats.class("top_level_derive"),
                 Ty::Tuple(m) => stats.class(if m.len() >= 13 { "tuple_arity>=13" } else { "tuple_arity<13" }),
                 _ => stats.class("top_level_leaf"),
